@@ -1056,10 +1056,31 @@ func (st *c07Child) handle(req string) string {
 		paced = append(paced, fr)
 		plen += 4 + l
 	}
-	if burst { // the whole stream at once: responses and final state may legitimately depend on scheduling
-		_, _, problems := c07Stream(srv, alloc, filepath.Join(st.base, "w"), nil, M)
+	if burst { // the whole stream at once: response contents and the final state may legitimately depend on scheduling -
+		// the ORDER of the responses may not: they carry the ids of the well-formed requests, in arrival order, and there
+		// are never more of them than well-formed requests
+		resp, _, problems := c07Stream(srv, alloc, filepath.Join(st.base, "w"), nil, M)
 		if len(problems) > 0 {
 			return "FAIL " + problems[0]
+		}
+		frames, _ := splitFrames(resp)
+		for i, fr := range frames {
+			if i >= len(paced) {
+				if class != "valid" {
+					return fmt.Sprintf("FAIL response-not-prefix: %d responses to a stream sent in one piece that holds only %d well-formed requests (%s)", len(frames), len(paced), sub)
+				}
+				break
+			}
+			rq := paced[i]
+			if rq[4] == fxpInit {
+				if fr.Typ != fxpVersion {
+					return fmt.Sprintf("FAIL response-order: the first response to a stream sent in one piece is of type %d, not VERSION", fr.Typ)
+				}
+				continue
+			}
+			if len(rq) >= 9 && fr.ID != binary.BigEndian.Uint32(rq[5:9]) {
+				return fmt.Sprintf("FAIL response-order: response %d to a stream sent in one piece carries id %d, the request in that place (%s) has id %d", i, fr.ID, c07TypeName(rq[4]), binary.BigEndian.Uint32(rq[5:9]))
+			}
 		}
 		return "ok"
 	}
@@ -1237,6 +1258,7 @@ type c07Case struct {
 	sub   string
 	ans   string
 	died  bool
+	burst bool // the whole stream in one Write (order, crash, hang and leak oracles only)
 }
 
 func runC07(c *Ctx) {
@@ -1261,6 +1283,7 @@ func runC07(c *Ctx) {
 	garbage := c07Garbage(c.Seed)
 	corpus := map[string][]*c07Session{"os": c07Corpus("os"), "req": c07Corpus("req")}
 	var cases []*c07Case
+	nMut := 0
 	for _, srv := range []string{"os", "req"} {
 		if only := os.Getenv("C07_ONLY"); only != "" && only != srv {
 			continue
@@ -1272,6 +1295,13 @@ func runC07(c *Ctx) {
 					cs := &c07Case{srv: srv, alloc: alloc, sess: si, m: m}
 					cs.g, cs.class, cs.sub, _ = c07Classify(s, c07Apply(s, m, garbage))
 					cases = append(cases, cs)
+					// once more in one piece: every frame whose type byte became EXTENDED (what follows is then mostly an unknown
+					// extension, pipelined behind requests that are still being served), and a sample of everything else
+					if nMut++; (m.kind == "type" && m.val == 200) || nMut%24 == 0 {
+						b := *cs
+						b.burst = true
+						cases = append(cases, &b)
+					}
 				}
 			}
 			for _, m := range c07PipeMutations(c.Thorough()) {
@@ -1332,7 +1362,7 @@ func runC07(c *Ctx) {
 					a = 1
 				}
 				line := fmt.Sprintf("%s %d %d %s %d %d %d", cs.srv, a, cs.sess, cs.m.kind, cs.m.frame, cs.m.off, cs.m.val)
-				if burst {
+				if burst || cs.burst {
 					line += " burst"
 				}
 				cs.ans, cs.died = p.ask(line)
@@ -1352,7 +1382,10 @@ func runC07(c *Ctx) {
 	wg.Wait()
 	failCount := map[string]int{}
 	for _, cs := range cases {
-		n := c.Case("mut", kvs("srv", cs.srv), kvb("alloc", cs.alloc), kvi("sess", cs.sess), kvs("mut", cs.m.kind), kvi("frame", cs.m.frame), kvi("off", cs.m.off), kvx("val", cs.m.val))
+		n := c.Case("mut", kvs("srv", cs.srv), kvb("alloc", cs.alloc), kvi("sess", cs.sess), kvs("mut", cs.m.kind), kvi("frame", cs.m.frame), kvi("off", cs.m.off), kvx("val", cs.m.val), kvb("burst", cs.burst))
+		if cs.burst {
+			c.Stat("streams_sent_in_one_piece")
+		}
 		if cs.class == "bad" {
 			c.NT(n)
 			c.Stat("malformed_" + cs.sub)
